@@ -20,7 +20,7 @@ ASSUMPTIONS = ["records LONGER than the header are not specified and not generat
                "all-blank columns: only nullability of the dtype is judged (bottom of the lattice)"]
 
 CELLS_FULL = ["", " ", "1", " 2 ", "1.5", "abc", "a,b", 'say "hi"', "x\ny", "1e3", "nan", "inf", "-inf", "Infinity", "0x1", "1_000",
-              "é", "x\r\ny", "c\rd", "+3", ".5", "a;b", "t\tu", "١٢", " pad ", "True", "None", "1 2"]
+              "é", "x\r\ny", "c\rd", "+3", ".5", "a;b", "t\tu", "١٢", " pad ", "True", "None", "1 2", "2", "2.0", "0", "-0.0", "1000"]
 CELLS_SMALL = ["", " ", "7", " 2 ", "1.5", "abc", "inf", "a,b", "x\r\ny"]
 HEADERS1 = [("h",), ("",), ("1",), (" x ",), ("a,b",)]
 HEADERS2 = [("h", "g"), ("h", "h"), ("", ""), ("1", "1.5"), ("A", "a")]
